@@ -261,7 +261,7 @@ fn thread_body(t: usize, nthreads: usize, nops: u32, cfg: GenCfg, errs: Arc<Mute
     let r = (|| -> Result<(), Violation> {
         for step in 0..nops {
             sched::yield_point(100);
-            let op = draw(24);
+            let op = draw(26);
             let what = format!("T{} step {} op {}", t, step, op);
             match op {
                 // ---- parse by several routes
@@ -813,6 +813,116 @@ fn thread_body(t: usize, nthreads: usize, nops: u32, cfg: GenCfg, errs: Arc<Mute
                     if let Some(sh) = taken {
                         tr!("T{} remove a shared value from the board", t);
                         drop_shared(sh)?;
+                    }
+                }
+                // ---- extract: values moved OUT of a container by the container API become sharers of their own
+                // (they are read again long after, possibly when the document they came from is gone)
+                24 | 25 => {
+                    let cands: Vec<usize> = (0..bag.len()).filter(|&k| !bag[k].big && matches!(&bag[k].m, J::Arr(a) if !a.is_empty()) || matches!(&bag[k].m, J::Obj(o) if !o.is_empty()) && !bag[k].big).collect();
+                    if !cands.is_empty() {
+                        let i = *pick(&cands);
+                        trace::bump(C::dom_takes);
+                        trace::nontrivial();
+                        let origins = bag[i].origins.clone();
+                        let mut out: Vec<(Value, J)> = Vec::new();
+                        let typed = chance(1, 2);
+                        let Item { v, m, origins: o0, big } = bag.swap_remove(i);
+                        let (v, m) = match m {
+                            J::Arr(mut a) => {
+                                // through a typed handle (no promotion first) or through as_array_mut
+                                let mut h: sonic_rs::Array;
+                                let mut vv = v;
+                                let how = draw(6);
+                                tr!("T{} extract from array #{} how={} typed={}", t, i, how, typed);
+                                let arr: &mut sonic_rs::Array = if typed {
+                                    h = libcall("into_array", || vv.into_array())?.ok_or_else(|| Violation::new("mismatch/into_array", format!("{}: None on an array", what)))?;
+                                    vv = Value::new();
+                                    &mut h
+                                } else {
+                                    h = sonic_rs::Array::new();
+                                    let _ = &h;
+                                    vv.as_array_mut().ok_or_else(|| Violation::new("mismatch/as_array_mut", format!("{}: None on an array", what)))?
+                                };
+                                match how {
+                                    0 => {
+                                        let got = libcall("pop", || arr.pop())?;
+                                        out.push((got.ok_or_else(|| Violation::new("mismatch/pop", format!("{}: None on a non-empty array", what)))?, a.pop().unwrap()));
+                                    }
+                                    1 => {
+                                        let k = draw(a.len() as u32) as usize;
+                                        // (Array::remove returns nothing: take the element through the slice view instead)
+                                        out.push((libcall("take through as_mut_slice", || arr.as_mut_slice()[k].take())?, std::mem::replace(&mut a[k], J::Null)));
+                                    }
+                                    2 => {
+                                        let k = draw(a.len() as u32) as usize;
+                                        out.push((libcall("swap_remove", || arr.swap_remove(k))?, a.swap_remove(k)));
+                                    }
+                                    3 => {
+                                        let from = draw(a.len() as u32 + 1) as usize;
+                                        let to = from + draw((a.len() - from) as u32 + 1) as usize;
+                                        let got: Vec<Value> = libcall("drain", || arr.drain(from..to).collect())?;
+                                        let want: Vec<J> = a.drain(from..to).collect();
+                                        if got.len() != want.len() {
+                                            return Err(Violation::new("mismatch/drain", format!("{}: drain yielded {} of {}", what, got.len(), want.len())));
+                                        }
+                                        out.extend(got.into_iter().zip(want));
+                                    }
+                                    4 => {
+                                        let at = draw(a.len() as u32 + 1) as usize;
+                                        let tail = libcall("split_off", || arr.split_off(at))?;
+                                        let mt = a.split_off(at);
+                                        out.push((libcall("into_value", || tail.into_value())?, J::Arr(mt)));
+                                    }
+                                    _ => {
+                                        // consume a clone's iterator half way: the yielded values live on, the rest is dropped
+                                        let n = draw(a.len() as u32 + 1) as usize;
+                                        let c = libcall("clone", || arr.clone())?;
+                                        let got: Vec<Value> = libcall("into_iter.take(n)", || {
+                                            let mut it = c.into_iter();
+                                            let mut g = Vec::new();
+                                            for _ in 0..n {
+                                                if let Some(x) = it.next() {
+                                                    g.push(x);
+                                                }
+                                            }
+                                            drop(it);
+                                            g
+                                        })?;
+                                        if got.len() != n {
+                                            return Err(Violation::new("mismatch/into_iter", format!("{}: into_iter yielded {} of {}", what, got.len(), n)));
+                                        }
+                                        out.extend(got.into_iter().zip(a.iter().take(n).cloned()));
+                                    }
+                                }
+                                let back = if typed { libcall("into_value", || h.into_value())? } else { vv };
+                                (back, J::Arr(a))
+                            }
+                            J::Obj(mut o) => {
+                                let mut vv = v;
+                                let k = draw(o.len() as u32) as usize;
+                                let key = o[k].0.clone();
+                                tr!("T{} extract member {:?} from object #{} typed={}", t, key, i, typed);
+                                let got = if typed {
+                                    let mut h = libcall("into_object", || vv.into_object())?.ok_or_else(|| Violation::new("mismatch/into_object", format!("{}: None on an object", what)))?;
+                                    let g = libcall("Object::remove", || h.remove(&key))?;
+                                    vv = libcall("into_value", || h.into_value())?;
+                                    g
+                                } else {
+                                    libcall("as_object_mut+remove", || vv.as_object_mut().and_then(|ob| ob.remove(&key)))?
+                                };
+                                let (_, mv) = o.remove(k);
+                                out.push((got.ok_or_else(|| Violation::new("mismatch/object.remove", format!("{}: remove({:?}) is None", what, key)))?, mv));
+                                (vv, J::Obj(o))
+                            }
+                            _ => unreachable!(),
+                        };
+                        bag.push(Item { v, m, origins: o0, big });
+                        for (xv, xm) in out {
+                            acquire(&origins);
+                            let it = Item { v: xv, m: xm, origins: origins.clone(), big: false };
+                            read_item(&it, &what)?;
+                            bag.push(it);
+                        }
                     }
                 }
                 // ---- drop
